@@ -503,6 +503,73 @@ async fn c16_two_readers_depart(ctx: Ctx, how: u8) {
     let _ = (ra, rb);
 }
 
+/// a compatible QoS update of a matched endpoint (user_data) is not a new match: total_count stays, no change is reported
+async fn c16_reannounce(ctx: Ctx, writer_side: bool) {
+    let f = ctx.factory("", None);
+    let n1 = node::<KeyedData>(&f, 0, "T").await;
+    let n2 = node::<KeyedData>(&f, 0, "T").await;
+    let wq = reliable_w(HistoryQosPolicyKind::KeepAll, Some(100));
+    let rq = reliable_r(HistoryQosPolicyKind::KeepAll);
+    let w = n1.publisher.create_datawriter::<KeyedData>(&n1.topic, QosKind::Specific(wq.clone()), NO_LISTENER, NO_STATUS).await.expect("w");
+    let r = n2.subscriber.create_datareader::<KeyedData>(&n2.topic, QosKind::Specific(rq.clone()), NO_LISTENER, NO_STATUS).await.expect("r");
+    if !wait_pub_matched(&ctx, &w, 1, 3000).await || !wait_sub_matched(&ctx, &r, 1, 3000).await {
+        ctx.violation("setup/no-match", "no match");
+        return;
+    }
+    let _ = w.get_publication_matched_status().await;
+    let _ = r.get_subscription_matched_status().await;
+    if writer_side {
+        let mut q = wq;
+        q.user_data.value = vec![9];
+        w.set_qos(QosKind::Specific(q)).await.expect("set_qos");
+    } else {
+        let mut q = rq;
+        q.user_data.value = vec![9];
+        r.set_qos(QosKind::Specific(q)).await.expect("set_qos");
+    }
+    ctx.sleep_ms(800).await;
+    let (tc, cc, tcc, ccc, side) = if writer_side {
+        let s = r.get_subscription_matched_status().await.expect("status");
+        (s.total_count, s.current_count, s.total_count_change, s.current_count_change, "reader-sees-writer-update")
+    } else {
+        let s = w.get_publication_matched_status().await.expect("status");
+        (s.total_count, s.current_count, s.total_count_change, s.current_count_change, "writer-sees-reader-update")
+    };
+    if (tc, cc, tcc, ccc) != (1, 1, 0, 0) {
+        ctx.violation(format!("re-announced-endpoint-counted-again/{side}"), format!("the matched endpoint changed its user_data only: total_count={tc} current_count={cc} total_count_change={tcc} current_count_change={ccc} (expected 1, 1, 0, 0)"));
+    }
+}
+
+// ---- C36 -----------------------------------------------------------------------------------------------------------
+async fn c36_content_filtered_topic(ctx: Ctx) {
+    let f = ctx.factory("", None);
+    let p = f.create_participant(0, QosKind::Default, NO_LISTENER, NO_STATUS).await.expect("participant");
+    let t = p.create_topic::<FilterData>("T", "T", QosKind::Default, NO_LISTENER, NO_STATUS).await.expect("topic");
+    let cft = p.create_contentfilteredtopic("TF", &t, "x = %0".to_string(), vec!["1".to_string()]).await.expect("cft");
+    let sub = p.create_subscriber(QosKind::Default, NO_LISTENER, NO_STATUS).await.expect("subscriber");
+    let r = sub.create_datareader::<FilterData>(&cft, QosKind::Default, NO_LISTENER, NO_STATUS).await.expect("reader");
+    // the related topic is used by the reader through the filtered topic
+    match p.delete_topic(&t).await {
+        Err(DdsError::PreconditionNotMet(_)) => {}
+        other => {
+            ctx.violation("cft/delete-related-topic-in-use", format!("delete_topic of the related topic of a content-filtered topic that a reader uses returned {other:?}"));
+            return;
+        }
+    }
+    match p.delete_contentfilteredtopic(&cft).await {
+        Err(DdsError::PreconditionNotMet(_)) => {}
+        other => ctx.violation("cft/delete-in-use", format!("delete_contentfilteredtopic while a reader uses it returned {other:?}")),
+    }
+    sub.delete_datareader(&r).await.expect("delete reader");
+    if let Err(e) = p.delete_contentfilteredtopic(&cft).await {
+        ctx.violation(format!("cft/delete-unused/{e:?}"), "delete_contentfilteredtopic of an unused filtered topic failed");
+    }
+    p.delete_contained_entities().await.expect("delete_contained_entities");
+    if let Err(e) = f.delete_participant(&p).await {
+        ctx.violation(format!("cft/participant-not-deletable-after-delete_contained_entities/{e:?}"), "a content-filtered topic had been created and deleted; delete_contained_entities did not leave the participant deletable");
+    }
+}
+
 // ---- C27 -----------------------------------------------------------------------------------------------------------
 /// two reliable readers, the acknowledgements of one of them are lost: a KEEP_LAST(1) write of the same instance must not
 /// complete (and must not evict the unacknowledged sample) before that reader has acknowledged
@@ -643,7 +710,11 @@ pub fn extra(id: &str) -> Vec<Scenario> {
                 add("unmatch".into(), Scenario::new(format!("C33.audit[unmatch,reader_side={rs}]"), 0, move |ctx| c33_unmatch(ctx, rs)));
             }
         }
+        "C36" => add("cft".into(), Scenario::new("C36.audit[content-filtered-topic]".to_string(), 0, c36_content_filtered_topic)),
         "C16" => {
+            for ws in [true, false] {
+                add("reannounce".into(), Scenario::new(format!("C16.audit[compatible-qos-update,writer_side={ws}]"), 0, move |ctx| c16_reannounce(ctx, ws)));
+            }
             for (k, n) in [(0u8, "lease-expired"), (1, "ignored")] {
                 add(n.into(), Scenario::new(format!("C16.audit[participant-with-two-readers-departs,{n}]"), 0, move |ctx| c16_two_readers_depart(ctx, k)));
             }
